@@ -16,6 +16,10 @@ Same(got, want) == IF plain THEN LinesOf(got) = LinesOf(want) ELSE got = want
 Guard(e) == CASE e.a = "W" -> Same(Got(e), WLOut(e.l, e.s)) /\ e.ok
               [] e.a = "T" -> Same(Got(e), TrigOut) /\ e.ok
               [] e.a = "C" -> Got(e) = <<>> /\ e.ok
+              \* a writer of its own that holds one line at EVERY level of the int8 range but 10 and is then triggered: nothing
+              \* before the trigger, then every line with the level it was written with, in order
+              [] e.a = "LSweep" -> /\ e.early = 0 /\ Len(e.out) = Len(e.levels)
+                                   /\ \A i \in 1..Len(e.levels) : e.out[i][1] = e.levels[i] /\ e.out[i][2] = e.s
               [] OTHER -> FALSE
 Effect(e) == CASE e.a = "W" -> WLEff(e.l, e.s) [] e.a = "T" -> TrigEff [] e.a = "C" -> CloseEff
                [] OTHER -> UNCHANGED <<conf, held, triggered, out>>
